@@ -39,17 +39,29 @@ var Relevant = map[string]func(w *World) int64{
 // RunHistory runs one generated history and reports into col. extra, if not
 // nil, runs after Setup inside the case (for property-specific additions).
 func RunHistory(t *testing.T, col *evd.Collector, prop string, p Profile, seed int64) *World {
+	return RunHistoryOpt(t, col, prop, p, seed, nil, nil)
+}
+
+// RunHistoryOpt is RunHistory with hooks: setup runs on the fresh world before
+// the topology is created, finish runs after the drain (inside the case).
+func RunHistoryOpt(t *testing.T, col *evd.Collector, prop string, p Profile, seed int64, setup func(*World), finish func(*World, *Gen)) *World {
 	var world *World
 	rig.SetWatchdogContext(fmt.Sprintf("%s profile=%s seed=%d", prop, p.Name, seed))
 	rig.RunCase(t, seed, rig.Opts{Tick: time.Microsecond, Trace: true}, func(e *rig.Env) {
 		w := NewWorld(e, prop)
 		world = w
+		if setup != nil {
+			setup(w)
+		}
 		g := NewGen(w, p)
 		g.Setup()
 		for i := 0; i < p.Ops; i++ {
 			g.Step()
 		}
 		g.Drain()
+		if finish != nil {
+			finish(w, g)
+		}
 		Report(col, prop, p.Name, seed, w)
 	})
 	return world
